@@ -7,6 +7,10 @@ pub fn dispatch(op: &str, rest: &str) -> String {
     match op {
         "name" => op_name(G::new(&unhex(a[0])).as_slice(), a[1].parse().unwrap()),
         "script" => crate::ops_script::op_script(&a),
+        "text" => crate::ops_text::op_text(&unhex(a[0])),
+        "textpair" => crate::ops_text::op_textpair(&unhex(a[0]), &unhex(a[1])),
+        "wname" => crate::ops_text::op_wname(&unhex(a[0]), a[1].parse().unwrap()),
+        "query" => crate::ops_text::op_query(&a),
         "iter" => crate::ops_script::op_iter(G::new(&unhex(a[0])).as_slice()),
         "rrset" => crate::ops_script::op_rrset(a[0].parse().unwrap(), G::new(&unhex(a[1])).as_slice()),
         _ => format!("BADOP({})", op),
